@@ -477,6 +477,18 @@ def coq_static_scan(subdirs):
     return bad
 
 
+def coq_chk(prop, timeout=1800):
+    """Independent re-check of the compiled property module and everything it depends on
+    (thorough tier).  Returns (ok, summary text)."""
+    rc, out, err = sh(["coqchk", "-o", "-silent", "-Q", ".", "MV", "MV.Properties_%s" % prop], cwd=COQ, timeout=timeout)
+    txt = out + err
+    m = re.search(r"CONTEXT SUMMARY.*", txt, re.S)
+    summ = m.group(0) if m else txt[-1500:]
+    ok = rc == 0 and "type-in-type: <none>" in summ and "unsafe (co)fixpoints: <none>" in summ and \
+        "positivity is assumed: <none>" in summ
+    return ok, " ".join(summ.split())[:1500]
+
+
 def coq_check_properties(prop, deps_subdirs, timeout=1500, allowed_axioms=()):
     """Build Properties_<prop>.vo (full .vo), re-run coqc on the property file to
     capture Print Assumptions.  Returns dict(obligations=[names], discharged=[names],
